@@ -156,9 +156,11 @@ structure EncryptedExtensions where
   exts : List Ext
   deriving DecidableEq, Repr
 
-def EncryptedExtensions.enc (m : EncryptedExtensions) : Bytes := 8 :: opqEnc 3 (listEnc 2 extEnc m.exts)
+def EncryptedExtensions.body (m : EncryptedExtensions) : Bytes := listEnc 2 extEnc m.exts
+def EncryptedExtensions.enc (m : EncryptedExtensions) : Bytes := 8 :: opqEnc 3 m.body
+def EncryptedExtensions.decBody : Dec EncryptedExtensions := fun i => (list 2 extDec i).map fun p => (⟨p.1⟩, p.2)
 def EncryptedExtensions.dec : Dec EncryptedExtensions
-  | 8 :: rest => block 3 (fun i => (list 2 extDec i).map fun p => (⟨p.1⟩, p.2)) rest
+  | 8 :: rest => block 3 EncryptedExtensions.decBody rest
   | _ => none
 
 structure ServerHello where
@@ -242,6 +244,9 @@ structure NewSessionTicket where
   exts : List Ext
   deriving DecidableEq, Repr
 
+def NewSessionTicket.body (m : NewSessionTicket) : Bytes :=
+  beEnc 4 m.lifetime ++ beEnc 4 m.ageAdd ++ opqEnc 1 m.nonce ++ opqEnc 2 m.ticket ++ listEnc 2 extEnc m.exts
+def NewSessionTicket.enc (m : NewSessionTicket) : Bytes := 4 :: opqEnc 3 m.body
 def NewSessionTicket.decBody : Dec NewSessionTicket := fun bs =>
   match uintBE 4 bs with
   | some (l, r1) =>
@@ -267,6 +272,8 @@ structure CertificateRequest where
   exts : List Ext
   deriving DecidableEq, Repr
 
+def CertificateRequest.body (m : CertificateRequest) : Bytes := opqEnc 1 m.context ++ listEnc 2 extEnc m.exts
+def CertificateRequest.enc (m : CertificateRequest) : Bytes := 13 :: opqEnc 3 m.body
 def CertificateRequest.decBody : Dec CertificateRequest := fun bs =>
   match opq 1 bs with
   | some (c, r1) =>
